@@ -430,10 +430,9 @@ func (c Case) updateRow(si selInfo) []cellExp {
 	case hooks && !utSupplied:
 		row[lUT] = cellExp{kind: xFresh, hard: true, why: "hook-running update refreshes update-time"}
 	case hooks && (si.explicit[lUT] || !si.restricted):
-		// map key for the update-time column under a hook-running update:
-		// gorm writes the caller's value instead of now; either is accepted,
-		// the stored value must not survive
-		row[lUT] = cellExp{kind: xBeOrFresh, val: utVal, why: "hook-running update with a caller-supplied update-time key"}
+		// "Updates with a map and Update write every given key": the caller's
+		// value is stored, under either spelling of the key
+		row[lUT] = cellExp{kind: xBe, val: utVal, why: "hook-running map update that supplies the update-time stores the supplied value"}
 	case hooks:
 		row[lUT] = free("map key for the update-time column that a restricting Select does not name, hook-running update: undocumented")
 	// --- column-update methods / SkipHooks sessions from here on
